@@ -50,6 +50,11 @@ func c33Dump(v reflect.Value) string {
 	case reflect.Int, reflect.Int8, reflect.Int16, reflect.Int32, reflect.Int64:
 		return fmt.Sprint(v.Int())
 	case reflect.String:
+		if v.Type().Name() == "H256" { // hash.H256: a string holding 32 bytes, "" for the zero hash
+			b := make([]byte, 32)
+			copy(b, v.String())
+			return "x" + vhHex(b)
+		}
 		return "s" + vhHex([]byte(v.String()))
 	case reflect.Ptr:
 		if v.IsNil() {
@@ -131,6 +136,35 @@ func c33Compact(b []byte) (v uint64, rest []byte, ok bool) {
 
 var c33BytesType = reflect.TypeOf([]byte(nil))
 
+// c33Pos is a length-prefixed position of an encoding: a vector count, a byte-string length
+// or a compact `uint` field.
+type c33Pos struct {
+	off, width int
+	bytesLen   bool
+}
+
+// when c33ScanRec is non-nil c33Scan records every compact prefix it walks over
+var (
+	c33ScanRec     *[]c33Pos
+	c33ScanOrigLen int
+)
+
+func c33Record(before, after []byte, bytesLen bool) {
+	if c33ScanRec != nil {
+		*c33ScanRec = append(*c33ScanRec, c33Pos{off: c33ScanOrigLen - len(before), width: len(before) - len(after), bytesLen: bytesLen})
+	}
+}
+
+// c33Positions lists the length-prefixed positions of a (valid) SCALE encoding of type t.
+func c33Positions(t reflect.Type, in []byte) []c33Pos {
+	var pos []c33Pos
+	c33ScanRec, c33ScanOrigLen = &pos, len(in)
+	defer func() { c33ScanRec = nil }()
+	var s uint64
+	c33Scan(t, in, &s)
+	return pos
+}
+
 // c33Scan walks b as scale.Unmarshal would for a destination of type t and returns the sum of
 // the byte-string lengths the decoder would allocate (declared lengths of []byte / string
 // values, each at most 2^32-1), the rest of the input and whether the walk succeeded.  It only
@@ -146,8 +180,20 @@ func c33Scan(t reflect.Type, b []byte, sum *uint64) (rest []byte, ok bool) {
 		}
 		return c33Scan(reflect.TypeOf(val), b[1:], sum)
 	}
+	if t.Kind() == reflect.String && t.Name() == "H256" { // custom UnmarshalSCALE: [32]byte
+		if len(b) < 32 {
+			return nil, false
+		}
+		return b[32:], true
+	}
+	if t.Kind() == reflect.Interface {
+		return nil, false
+	}
 	if t == c33BytesType || t.Kind() == reflect.String {
 		l, r, ok := c33Compact(b)
+		if ok {
+			c33Record(b, r, true)
+		}
 		if !ok || l > 1<<32-1 {
 			return nil, false
 		}
@@ -185,6 +231,9 @@ func c33Scan(t reflect.Type, b []byte, sum *uint64) (rest []byte, ok bool) {
 		return fixed(8)
 	case reflect.Uint, reflect.Int:
 		_, r, ok := c33Compact(b)
+		if ok {
+			c33Record(b, r, false)
+		}
 		return r, ok
 	case reflect.Ptr:
 		if len(b) == 0 || b[0] > 1 {
@@ -220,6 +269,7 @@ func c33Scan(t reflect.Type, b []byte, sum *uint64) (rest []byte, ok bool) {
 		if !ok {
 			return nil, false
 		}
+		c33Record(b, r, false)
 		b = r
 		for i := uint64(0); i < n; i++ {
 			b, ok = c33Scan(t.Elem(), b, sum)
@@ -257,6 +307,10 @@ type c33Kind struct {
 	valid func(r *vhRng) []byte
 	// scan returns the byte-string bytes the decoder would allocate for this input
 	scan func(in []byte) uint64
+	// craft (optional) draws an input with a boundary length prefix planted at a length-prefixed
+	// position of a valid message; when nil and typ is set the SCALE positions of typ are used
+	craft func(r *vhRng) []byte
+	typ   reflect.Type
 }
 
 // c33RunKind is the observable of one case: ok <dump> re=<hex> rt=<0|1> | err | panic | timeout
@@ -305,6 +359,141 @@ var c33Crafted = [][]byte{
 	{0x80, 0x80, 0x80, 0x80, 0x80, 0x80, 0x80, 0x80, 0x80, 0x02}, // varint overflow
 	{0xff, 0xff, 0xff, 0xff, 0x0f},                               // varint 2^32-1
 	{0x80, 0x00},                                                 // non-minimal varint 0
+}
+
+func c33LE(v uint64, n int) []byte {
+	b := make([]byte, n)
+	for i := 0; i < n && i < 8; i++ {
+		b[i] = byte(v >> (8 * uint(i)))
+	}
+	return b
+}
+
+// c33Boundary: compact prefixes at the boundaries 2^30-1, 2^30, 2^31, 2^32-1, 2^32, 2^53, 2^56,
+// 2^63-1, 2^63, 2^64-1 in the four-byte mode and in big-integer mode with 4, 8, 5..7 and more
+// payload bytes, and non-canonical forms of small numbers.
+var c33Boundary = func() [][]byte {
+	out := [][]byte{{0xfe, 0xff, 0xff, 0xff}}
+	for _, v := range []uint64{1<<30 - 1, 1 << 30, 1 << 31, 1<<32 - 1} {
+		out = append(out, append([]byte{0x03}, c33LE(v, 4)...))
+	}
+	for _, v := range []uint64{1<<30 - 1, 1 << 30, 1 << 31, 1<<32 - 1, 1 << 32, 1 << 53, 1<<56 - 1, 1 << 56,
+		1<<63 - 1, 1 << 63, 1<<64 - 1, 1<<64 - 2} {
+		out = append(out, append([]byte{0x13}, c33LE(v, 8)...))
+	}
+	out = append(out,
+		append([]byte{0x07}, c33LE(1<<32, 5)...), append([]byte{0x0b}, c33LE(1<<40, 6)...),
+		append([]byte{0x0f}, c33LE(1<<53, 7)...),
+		append([]byte{0x17}, append(c33LE(0, 8), 1)...),                  // 9 payload bytes: 2^64
+		append([]byte{0x33}, append(c33LE(1<<63, 8), c33LE(1, 8)...)...), // 16 payload bytes
+		append([]byte{0xff}, append(make([]byte, 66), 1)...),             // 67 payload bytes
+		[]byte{0x01, 0x00}, []byte{0xfd, 0x00}, []byte{0x02, 0x00, 0x00, 0x00}, []byte{0xfe, 0xff, 0x00, 0x00},
+		[]byte{0x03, 0x00, 0x00, 0x00, 0x00}, append([]byte{0x13}, c33LE(5, 8)...))
+	return out
+}()
+
+// c33BoundaryVarints: protobuf / LEB128 length prefixes at 2^20, 2^31-1, 2^31, 2^32-1, 2^32,
+// 2^53, 2^63-1, 2^63, 2^64-1, an overflowing one, an eleven-byte one and a non-minimal zero.
+var c33BoundaryVarints = func() [][]byte {
+	vi := func(v uint64) []byte {
+		var b []byte
+		for v >= 0x80 {
+			b = append(b, byte(v)|0x80)
+			v >>= 7
+		}
+		return append(b, byte(v))
+	}
+	out := [][]byte{}
+	for _, v := range []uint64{1 << 20, 1<<31 - 1, 1 << 31, 1<<32 - 1, 1 << 32, 1 << 53, 1<<63 - 1, 1 << 63, 1<<64 - 1} {
+		out = append(out, vi(v))
+	}
+	return append(out,
+		[]byte{0x80, 0x80, 0x80, 0x80, 0x80, 0x80, 0x80, 0x80, 0x80, 0x02},
+		[]byte{0x80, 0x80, 0x80, 0x80, 0x80, 0x80, 0x80, 0x80, 0x80, 0x80, 0x01},
+		[]byte{0x80, 0x00})
+}()
+
+// c33Plant replaces in[off:off+width] by prefix and keeps either the whole tail or a short body.
+func c33Plant(r *vhRng, in []byte, off, width int, prefix []byte) []byte {
+	out := append(append([]byte{}, in[:off]...), prefix...)
+	tail := in[off+width:]
+	if r.Bool() && len(tail) > 0 {
+		tail = tail[:r.Intn(minInt(len(tail), 9))]
+	}
+	return append(out, tail...)
+}
+
+func minInt(a, b int) int {
+	if a < b {
+		return a
+	}
+	return b
+}
+
+// c33CraftScale plants a boundary compact prefix at a length-prefixed position of a valid
+// encoding of type t.
+func c33CraftScale(r *vhRng, t reflect.Type, valid []byte) []byte {
+	pos := c33Positions(t, valid)
+	if len(pos) == 0 {
+		return valid
+	}
+	p := pos[r.Intn(len(pos))]
+	return c33Plant(r, valid, p.off, p.width, c33Boundary[r.Intn(len(c33Boundary))])
+}
+
+// c33WireLenPositions walks a protobuf message and lists the length varints of its
+// length-delimited fields (offset, width), descending one level into each payload that parses.
+func c33WireLenPositions(b []byte, base int, depth int) [][2]int {
+	var out [][2]int
+	rd := func(b []byte) (uint64, int) {
+		var v uint64
+		for i := 0; i < len(b) && i < 10; i++ {
+			v |= uint64(b[i]&0x7f) << (7 * uint(i))
+			if b[i] < 0x80 {
+				return v, i + 1
+			}
+		}
+		return 0, 0
+	}
+	off := 0
+	for off < len(b) {
+		tag, n := rd(b[off:])
+		if n == 0 {
+			return out
+		}
+		off += n
+		switch tag & 7 {
+		case 0:
+			_, n := rd(b[off:])
+			if n == 0 {
+				return out
+			}
+			off += n
+		case 2:
+			l, n := rd(b[off:])
+			if n == 0 || uint64(len(b)-off-n) < l {
+				return out
+			}
+			out = append(out, [2]int{base + off, n})
+			if depth > 0 {
+				out = append(out, c33WireLenPositions(b[off+n:off+n+int(l)], base+off+n, depth-1)...)
+			}
+			off += n + int(l)
+		default:
+			return out
+		}
+	}
+	return out
+}
+
+// c33CraftWire plants a boundary varint at a length prefix of a protobuf message.
+func c33CraftWire(r *vhRng, valid []byte) []byte {
+	pos := c33WireLenPositions(valid, 0, 2)
+	if len(pos) == 0 {
+		return valid
+	}
+	p := pos[r.Intn(len(pos))]
+	return c33Plant(r, valid, p[0], p[1], c33BoundaryVarints[r.Intn(len(c33BoundaryVarints))])
 }
 
 // c33SmallBytes draws n bytes biased towards small values and SCALE/protobuf structure bytes.
@@ -380,6 +569,14 @@ func c33Mutate(r *vhRng, in []byte) []byte {
 
 // c33Candidate draws one input for kind k.
 func c33Candidate(r *vhRng, k *c33Kind) []byte {
+	if r.Chance(1, 3) { // a boundary length prefix at a length-prefixed position of a valid message
+		if k.craft != nil {
+			return k.craft(r)
+		}
+		if k.typ != nil {
+			return c33CraftScale(r, k.typ, k.valid(r))
+		}
+	}
 	switch r.Intn(10) {
 	case 0:
 		return k.valid(r)
